@@ -216,6 +216,54 @@ theorem run_inv_noSpend {c : Code} (hc : c.addDepositRefusesGov = true) : ∀ (o
     simp only [List.all_cons, Bool.and_eq_true] at hall
     exact ih hall.2 _ (step_inv_noSpend hc s op hall.1 h)
 
+theorem step_inv_deposit (c : Code) (s : State) (pid n : Nat) (hi : Inv s) : Inv (step c s (.deposit pid n)) := by
+  have hh := hi.2
+  simp only [step, hh, Bool.false_eq_true, if_false]
+  exact ⟨by have := hi.1; simp [total_append, total]; omega, rfl⟩
+
+theorem step_inv_settle (c : Code) (s : State) (pid : Nat) (hi : Inv s) : Inv (step c s (.settle pid)) := by
+  have hh := hi.2
+  simp only [step, hh, Bool.false_eq_true, if_false]
+  obtain ⟨b, e, q⟩ := settle_step_inv pid s hi
+  simp only [e]; rw [hh] at q; exact q
+
+theorem passMsgs_halted (c : Code) (ms : List PMsg) (s : State) : (passMsgs c ms s).halted = s.halted := by
+  unfold passMsgs
+  cases em : execMsgs c ms s with
+  | none => rfl
+  | some s2 =>
+    simp only []
+    split
+    · rfl
+    · exact execMsgs_halted ms em
+
+/-- after every `pass` of the history the gov account still covers the open deposits (whatever the messages did) -/
+def PassesKeepCovered (c : Code) : List Op → State → Prop
+  | [], _ => True
+  | op :: r, s =>
+    (match op with
+      | .pass _ _ => total (step c s op).deps ≤ (step c s op).bal
+      | _ => True) ∧ PassesKeepCovered c r (step c s op)
+
+theorem run_inv_partial {c : Code} (hc : c.settleBeforeMsgs = true) : ∀ (ops : List Op) (s : State), Inv s →
+    PassesKeepCovered c ops s → Inv (run c ops s) := by
+  intro ops
+  induction ops with
+  | nil => intro s h _; exact h
+  | cons op r ih =>
+    intro s hi hk
+    obtain ⟨h1, h2⟩ := hk
+    refine ih _ ?_ h2
+    cases op with
+    | deposit pid n => exact step_inv_deposit c s pid n hi
+    | settle pid => exact step_inv_settle c s pid hi
+    | pass pid ms =>
+      refine ⟨h1, ?_⟩
+      have hh := hi.2
+      simp only [step, hh, Bool.false_eq_true, if_false, hc, if_true]
+      obtain ⟨b, e, q⟩ := settle_step_inv pid s hi
+      simp only [e, passMsgs_halted]
+
 theorem inv_init : Inv init := ⟨by simp [init, total], rfl⟩
 
 end FxVerif.Proofs.C07Escrow
